@@ -41,10 +41,9 @@
      list.MoveToFront(el)                  k :: remove_key k l_list
      `for path := range map { delete }`    fold over a snapshot of the keys (iteration order is
                                            irrelevant: the result is order independent, proved)
-   Not modelled: the RWMutex (every method is one atomic step; Get's RLock->Lock upgrade window
-   and PutNegative's unlocked read of enableNegative are therefore invisible here, see
-   [attr_put_negative_read]/[attr_put_negative_commit] for the latter), metrics/logging, the
-   hits/misses counters, aliasing of returned values (checked at run time by the harness). *)
+   Not modelled: the RWMutex (every method is one atomic step; Get's RLock->Lock upgrade window is
+   therefore invisible here), metrics/logging, the hits/misses counters, aliasing of returned
+   values (checked at run time by the harness; so is a concurrent stress stream). *)
 From Coq Require Import List NArith ZArith Bool.
 Import ListNotations.
 Open Scope N_scope.
@@ -223,13 +222,17 @@ Definition attr_get (now : N) (k : path) (c : attr_cache) : attr_cache * get_res
 Definition attr_put (now : N) (k : path) (a : A) (c : attr_cache) : attr_cache :=
   with_lru c (store k (Some a) (Z.of_N now + ac_ttl c)%Z (ac_lru c)).
 
-(* PutNegative reads enableNegative/negativeTTL under the read lock, releases it, then takes the write
-   lock and stores.  Sequentially the two halves are adjacent. *)
-Definition attr_put_negative_read (c : attr_cache) : bool * Z := (ac_negon c, ac_negttl c).
-Definition attr_put_negative_commit (now : N) (k : path) (rd : bool * Z) (c : attr_cache) : attr_cache :=
-  if fst rd then with_lru c (store k None (Z.of_N now + snd rd)%Z (ac_lru c)) else c.
+(* PutNegative: under the write lock; nothing happens while negative caching is disabled *)
 Definition attr_put_negative (now : N) (k : path) (c : attr_cache) : attr_cache :=
-  attr_put_negative_commit now k (attr_put_negative_read c) c.
+  if ac_negon c then with_lru c (store k None (Z.of_N now + ac_negttl c)%Z (ac_lru c)) else c.
+
+(* NOT the current code.  Before the repair of PutNegative the method read enableNegative/negativeTTL
+   under the read lock, released it, and only then took the write lock and stored: two atomic steps
+   between which a ConfigureNegativeCaching(false) could run.  The two halves are kept to document
+   why the check has to sit under the write lock (Properties/C21.v, C21_put_negative_split_refuted). *)
+Definition attr_put_negative_read_old (c : attr_cache) : bool * Z := (ac_negon c, ac_negttl c).
+Definition attr_put_negative_commit_old (now : N) (k : path) (rd : bool * Z) (c : attr_cache) : attr_cache :=
+  if fst rd then with_lru c (store k None (Z.of_N now + snd rd)%Z (ac_lru c)) else c.
 
 Definition attr_invalidate (k : path) (c : attr_cache) : attr_cache := with_lru c (delete_entry k (ac_lru c)).
 Definition attr_invalidate_tree (d : path) (c : attr_cache) : attr_cache :=
@@ -401,6 +404,13 @@ Definition direct_child_b (p d : path) : bool :=
     (if path_eqb d [slash] then Nat.eqb (length b) 0 else path_eqb b d)
   | None => false
   end.
+
+Definition is_abs (p : path) : bool := match p with c :: _ => c =? slash | [] => false end.
+(* where the code's isChildOf departs from the parent rule: for dirPath "/" the first byte of path is
+   never looked at, so a key that does not start with a slash counts as a child of the root *)
+Definition root_quirk (p d : path) : bool :=
+  path_eqb d [slash] &&
+  match p with c :: name => negb (c =? slash) && no_slash_nonempty name | [] => false end.
 
 Section AttrSpec.
 Context {A : Type}.
